@@ -1,5 +1,6 @@
 import Momo.Proof.HashMetaChain
 import Momo.Proof.HashMetaBucket
+import Momo.Proof.TrEqHashMeta
 /-!
 # C12 — Growth reusing stored hash bits places elements where a full rehash would
 
@@ -294,6 +295,256 @@ theorem C12_limp4_bucket_part (hc maxCount minMpi : Nat) (h4 : 4 ≤ hc) (hm : m
     rw [hc']
     exact ⟨this.2.1, this.2.2.1, this.2.2.2⟩
 
+/-! ## The same statements for the code as translated from the headers
+
+`Momo.Tr.*` (lean/Momo/Translated/HashMeta.lean, HashProbe.lean) are regenerated by tools/translate.py from the current text of
+`pvCalcShortHash`, `pvGetProbeShift`, `pvSetHashProbe`, `GetHashCodePart`, `AddCrt`, `Remove`, `pvGetHashState`,
+`GetStartBucketIndex`, `GetNextBucketIndex` on every check; `Momo/Proof/TrEqHashMeta.lean`, `TrEqHashProbe.lean` prove them equal
+to the model functions used above. -/
+
+/-- **C12 (a) for `BucketLimP4` as translated from the header.** An element with 64-bit hash code `h` is added at table size
+`2^L` (`L ≤ 57`) after `p` steps of the translated probe sequence, at position `index` of a bucket with `hashCount = hc` metadata
+bytes whose hash-probe slot `hc-1-index` is not taken by a short hash: the translated `pvSetHashProbe` then the short-hash write
+of `AddCrt`. For every new size `2^L'` the code the translated `GetHashCodePart` returns (the full getter returning the true hash
+code) selects the same start bucket as `h` (translated `GetStartBucketIndex`), has the same short hash (translated
+`pvCalcShortHash`) and makes the translated `pvSetHashProbe` write the same bytes for every displacement. -/
+theorem C12_limp4_reconstruct_translated (sh : Nat → Nat) (hc index h L L' p : Nat) (hh : h < 2 ^ 64) (hL : L ≤ 57)
+    (hL' : L' ≤ 63) (hp : p ≤ 2 ^ L) (hpos : index < hc - 1 - index) :
+    let sh1 := Tr.upd (Tr.limp4_pvSetHashProbe sh true hc index h L p) index (Tr.limp4_pvCalcShortHash h)
+    let c := Tr.limp4_GetHashCodePart sh1 true hc index h (TrEq.trSeq .limp4 L h p) L L'
+    Tr.base_GetStartBucketIndex c (2 ^ L') = Tr.base_GetStartBucketIndex h (2 ^ L') ∧
+    Tr.limp4_pvCalcShortHash c = Tr.limp4_pvCalcShortHash h ∧
+    ∀ sh' p', Tr.limp4_pvSetHashProbe sh' true hc index c L' p' = Tr.limp4_pvSetHashProbe sh' true hc index h L' p' := by
+  intro sh1 c
+  have hi : index < hc := by omega
+  have hne : hc - 1 - index ≠ index := by omega
+  have hbyte : sh1 (hc - 1 - index) = P4.encByte h L p := by
+    show Tr.upd _ _ _ _ = _
+    rw [TrEq.tr_limp4_setHashProbe sh hc index h L p hi (by omega)]
+    simp only [Tr.upd, P4.setHashProbe, hne, if_false]
+    rw [if_neg (by omega)]
+    simp [upd]
+  have hshort : sh1 index = P4.shortHash h := by
+    show Tr.upd _ _ _ _ = _
+    simp [Tr.upd, TrEq.tr_limp4_shortHash]
+  have hseq : TrEq.trSeq .limp4 L h p = Probe.seqLin L (Probe.start L h) p := by
+    rw [TrEq.trSeq_eq .limp4 L h p (by omega) hp]; simp [Probe.seqOf, TrEq.NextFn.quad]
+  have hc' : c = P4.getHashCodePart (P4.encByte h L p) (P4.shortHash h) (Probe.seqLin L (Probe.start L h) p) L L' h := by
+    show Tr.limp4_GetHashCodePart sh1 true hc index h _ L L' = _
+    have hb : sh1 (hc - 1 - index) < 256 := by rw [hbyte]; have := (P4.encByte_ge h L p).2; omega
+    have hidx : TrEq.trSeq .limp4 L h p < 2 ^ L := by
+      rw [hseq, Probe.seqLin_closed L _ p (Probe.start_lt L h)]; exact Nat.mod_lt _ (Nat.two_pow_pos L)
+    rw [TrEq.tr_limp4_getHashCodePart sh1 hc index h _ L L' hi hb hidx (by omega) hL', hbyte, hshort, hseq]
+  have key : Probe.start L' c = Probe.start L' h ∧ P4.shortHash c = P4.shortHash h ∧ ∀ p', P4.encByte c L' p' = P4.encByte h L' p' := by
+    by_cases hu : P4.useFull (P4.encByte h L p) L L' = true
+    · have : c = h := by rw [hc']; unfold P4.getHashCodePart; rw [hu]; rfl
+      rw [this]; exact ⟨rfl, rfl, fun _ => rfl⟩
+    · have hu' : P4.useFull (P4.encByte h L p) L L' = false := by
+        cases hx : P4.useFull (P4.encByte h L p) L L' <;> simp_all
+      have := C12_limp4_reconstruct h L L' p h hh hL hu'
+      rw [hc']; exact ⟨this.2.1, this.2.2.1, this.2.2.2⟩
+  refine ⟨?_, ?_, ?_⟩
+  · rw [TrEq.tr_start, TrEq.tr_start]; exact key.1
+  · rw [TrEq.tr_limp4_shortHash, TrEq.tr_limp4_shortHash]; exact key.2.1
+  · intro sh' p'
+    rw [TrEq.tr_limp4_setHashProbe sh' hc index c L' p' hi hL', TrEq.tr_limp4_setHashProbe sh' hc index h L' p' hi hL']
+    unfold P4.setHashProbe
+    rw [key.2.2 p']
+
+/-- **C12 (a) for `BucketOpen2N2` as translated from the header.** The element is added by the translated `AddCrt` (metadata part) to a
+bucket `b` (`mState[1] = s1` holding the count) of a table of `2^L` buckets after `p` steps of the translated quadratic probe
+sequence; the table grows to `2^L'` (`L < L' ≤ 63`). The code returned by the translated `GetHashCodePart` for that element selects
+the same start bucket as `h`, has the same short hash, and — unless the new size is the first of its group, whose byte is never
+read — makes the translated `AddCrt` write the same bytes into any bucket `b'`. -/
+theorem C12_open2n2_reconstruct_translated (b : O2.Bucket) (s1 h L L' p : Nat) (hs : s1 < 256) (hcnt : s1 % 4 = b.cnt)
+    (hlt : b.cnt < b.maxCount) (hm : b.maxCount ≤ 3) (hh : h < 2 ^ 64) (hL : L ≤ 57) (hLL : L < L') (hL' : L' ≤ 63) (hp : p ≤ 2 ^ L) :
+    let r := Tr.open2n2_AddCrt b.sh b.hp s1 true b.maxCount h L p
+    let c := Tr.open2n2_GetHashCodePart r.1 r.2.1 true (b.maxCount - 1 - b.cnt) h (TrEq.trSeq .open2n2 L h p) L L'
+    Tr.base_GetStartBucketIndex c (2 ^ L') = Tr.base_GetStartBucketIndex h (2 ^ L') ∧
+    Tr.open2n2_pvCalcShortHash c = Tr.open2n2_pvCalcShortHash h ∧
+    (0 < O2.probeShift L' → ∀ (b' : O2.Bucket) (s1' p' : Nat), s1' < 256 → s1' % 4 = b'.cnt → b'.cnt < b'.maxCount → b'.maxCount ≤ 3 →
+      (Tr.open2n2_AddCrt b'.sh b'.hp s1' true b'.maxCount c L' p').1 = (Tr.open2n2_AddCrt b'.sh b'.hp s1' true b'.maxCount h L' p').1 ∧
+      (Tr.open2n2_AddCrt b'.sh b'.hp s1' true b'.maxCount c L' p').2.1 = (Tr.open2n2_AddCrt b'.sh b'.hp s1' true b'.maxCount h L' p').2.1) := by
+  intro r c
+  obtain ⟨e1, e2, _, _, _⟩ := TrEq.tr_open2n2_addCrt b s1 h L p hs hcnt hlt hm (by omega)
+  have hbyte : r.2.1 (b.maxCount - 1 - b.cnt) = O2.encByte h L p := by
+    show (Tr.open2n2_AddCrt b.sh b.hp s1 true b.maxCount h L p).2.1 _ = _
+    rw [e2]; simp [O2.Bucket.addCrt, upd]
+  have hshort : r.1 (b.maxCount - 1 - b.cnt) = O2.shortHash h := by
+    show (Tr.open2n2_AddCrt b.sh b.hp s1 true b.maxCount h L p).1 _ = _
+    rw [e1]; simp [O2.Bucket.addCrt, upd]
+  have hseq : TrEq.trSeq .open2n2 L h p = Probe.seqQuad L (Probe.start L h) p := by
+    rw [TrEq.trSeq_eq .open2n2 L h p (by omega) hp]; simp [Probe.seqOf, TrEq.NextFn.quad]
+  have hc' : c = O2.getHashCodePart (O2.encByte h L p) (O2.shortHash h) (Probe.seqQuad L (Probe.start L h) p) L L' h := by
+    show Tr.open2n2_GetHashCodePart r.1 r.2.1 true _ h _ L L' = _
+    have hb : r.2.1 (b.maxCount - 1 - b.cnt) < 256 := by rw [hbyte]; exact TrEq.enc_lt .open2 h L p
+    have h63 : (2:Nat) ^ L ≤ 2 ^ 63 := Nat.pow_le_pow_right (by decide) (by omega)
+    have hidx : TrEq.trSeq .open2n2 L h p < 2 ^ 64 := by
+      rw [hseq, Probe.seqQuad_closed L _ p (Probe.start_lt L h)]
+      have := Nat.mod_lt (Probe.start L h + Probe.tri p) (Nat.two_pow_pos L); omega
+    rw [TrEq.tr_open2n2_getHashCodePart r.1 r.2.1 _ h _ L L' hb hidx (by omega) hL', hbyte, hshort, hseq]
+  have key : Probe.start L' c = Probe.start L' h ∧ O2.shortHash c = O2.shortHash h ∧
+      (0 < O2.probeShift L' → ∀ p', O2.encByte c L' p' = O2.encByte h L' p') := by
+    by_cases hu : O2.useFull (O2.encByte h L p) L L' = true
+    · have : c = h := by rw [hc']; unfold O2.getHashCodePart; rw [hu]; rfl
+      rw [this]; exact ⟨rfl, rfl, fun _ _ => rfl⟩
+    · have hu' : O2.useFull (O2.encByte h L p) L L' = false := by
+        cases hx : O2.useFull (O2.encByte h L p) L L' <;> simp_all
+      have := C12_open2n2_reconstruct h L L' p h hh hL hLL hu'
+      rw [hc']; exact ⟨this.2.1, this.2.2.1, this.2.2.2⟩
+  refine ⟨?_, ?_, ?_⟩
+  · rw [TrEq.tr_start, TrEq.tr_start]; exact key.1
+  · rw [TrEq.tr_open2n2_shortHash, TrEq.tr_open2n2_shortHash]; exact key.2.1
+  · intro hs' b' s1' p' h1 h2 h3 h4
+    obtain ⟨a1, a2, _, _, _⟩ := TrEq.tr_open2n2_addCrt b' s1' c L' p' h1 h2 h3 h4 hL'
+    obtain ⟨b1, b2, _, _, _⟩ := TrEq.tr_open2n2_addCrt b' s1' h L' p' h1 h2 h3 h4 hL'
+    rw [a1, a2, b1, b2]
+    simp only [O2.Bucket.addCrt, key.2.1, key.2.2 hs' p']
+    exact ⟨trivial, trivial⟩
+
+/-- **C12 (a) for `BucketOne` as translated from the header** (8-byte state): the translated `GetHashCodePart` applied to the state
+the translated `pvGetHashState` stored selects the same start bucket for every table size up to `2^63` and is stored as the same
+state; with a narrower state the translated function returns what the full getter returns. -/
+theorem C12_one_reconstruct_translated (h full L' : Nat) (hL' : L' ≤ 63) :
+    Tr.base_GetStartBucketIndex (Tr.one_GetHashCodePart (Tr.one_pvGetHashState8 h) 8 full) (2 ^ L') = Tr.base_GetStartBucketIndex h (2 ^ L') ∧
+    Tr.one_pvGetHashState8 (Tr.one_GetHashCodePart (Tr.one_pvGetHashState8 h) 8 full) = Tr.one_pvGetHashState8 h ∧
+    (∀ stateSize state, stateSize < 8 → Tr.one_GetHashCodePart state stateSize full = full) := by
+  have := C12_one_reconstruct h full L' hL'
+  simp only [TrEq.tr_start, TrEq.tr_one_hashState8, TrEq.tr_one_getHashCodePart]
+  exact ⟨this.2.1, this.2.2.1, this.2.2.2⟩
+
+/-- **C12 (b) for the translated `GetHashCodePart`: the stored bits are used exactly when they suffice.** LimP4: the translated
+function returns the value of the full getter for every value of it iff the model's `useFull` flag is set; and whenever it
+returns the same code for two different values of the full getter (i.e. it did not consult it), the byte it consumed is a
+genuine hash-probe byte and every index bit of the new size lies among the stored bits. -/
+theorem C12_reconstruction_only_when_bits_suffice_translated (sh : Nat → Nat) (hc index idx L L' : Nat) (hi : index < hc)
+    (hb : sh (hc - 1 - index) < 256) (hidx : idx < 2 ^ L) (hL : L ≤ 63) (hL' : L' ≤ 63) :
+    ((∀ full, Tr.limp4_GetHashCodePart sh true hc index full idx L L' = full) ↔ P4.useFull (sh (hc - 1 - index)) L L' = true) ∧
+    (∀ full1 full2, full1 ≠ full2 →
+      Tr.limp4_GetHashCodePart sh true hc index full1 idx L L' = Tr.limp4_GetHashCodePart sh true hc index full2 idx L L' →
+      128 ≤ sh (hc - 1 - index) ∧ sh (hc - 1 - index) ≠ 255 ∧ L' ≤ P4.knownBits L) := by
+  have e : ∀ full, Tr.limp4_GetHashCodePart sh true hc index full idx L L'
+      = P4.getHashCodePart (sh (hc - 1 - index)) (sh index) idx L L' full :=
+    fun full => TrEq.tr_limp4_getHashCodePart sh hc index full idx L L' hi hb hidx hL hL'
+  constructor
+  · constructor
+    · intro hall
+      cases hu : P4.useFull (sh (hc - 1 - index)) L L'
+      · have h0 := hall 0
+        have h1 := hall 1
+        rw [e] at h0 h1
+        simp only [P4.getHashCodePart, hu, Bool.false_eq_true, if_false] at h0 h1
+        omega
+      · rfl
+    · intro hu full
+      rw [e]; simp [P4.getHashCodePart, hu]
+  · intro full1 full2 hne hsame
+    rw [e, e] at hsame
+    cases hu : P4.useFull (sh (hc - 1 - index)) L L'
+    · have := (C12_reconstruction_only_when_bits_suffice (sh (hc - 1 - index)) L L' hb).1 hu
+      exact ⟨this.1, this.2.1, this.2.2.1⟩
+    · simp only [P4.getHashCodePart, hu, if_true] at hsame
+      exact absurd hsame hne
+
+/-- **C12 (b), Open2N2, translated** (growth `L < L'`): the same, and the probe shift is positive (the `MOMO_ASSERT(probeShift > 0)`
+the translator lists as dropped cannot fire). -/
+theorem C12_open2n2_only_when_bits_suffice_translated (sh hp : Nat → Nat) (index idx L L' : Nat) (hb : hp index < 256)
+    (hidx : idx < 2 ^ 64) (hL : L ≤ 63) (hLL : L < L') (hL' : L' ≤ 63) :
+    ((∀ full, Tr.open2n2_GetHashCodePart sh hp true index full idx L L' = full) ↔ O2.useFull (hp index) L L' = true) ∧
+    (∀ full1 full2, full1 ≠ full2 →
+      Tr.open2n2_GetHashCodePart sh hp true index full1 idx L L' = Tr.open2n2_GetHashCodePart sh hp true index full2 idx L L' →
+      hp index ≠ 255 ∧ 0 < Tr.open2n2_pvGetProbeShift L ∧ L' ≤ O2.knownBits L) := by
+  have e : ∀ full, Tr.open2n2_GetHashCodePart sh hp true index full idx L L'
+      = O2.getHashCodePart (hp index) (sh index) idx L L' full :=
+    fun full => TrEq.tr_open2n2_getHashCodePart sh hp index full idx L L' hb hidx hL hL'
+  constructor
+  · constructor
+    · intro hall
+      cases hu : O2.useFull (hp index) L L'
+      · have h0 := hall 0
+        have h1 := hall 1
+        rw [e] at h0 h1
+        simp only [O2.getHashCodePart, hu, Bool.false_eq_true, if_false] at h0 h1
+        omega
+      · rfl
+    · intro hu full
+      rw [e]; simp [O2.getHashCodePart, hu]
+  · intro full1 full2 hne hsame
+    rw [e, e] at hsame
+    cases hu : O2.useFull (hp index) L L'
+    · have := (C12_reconstruction_only_when_bits_suffice (hp index) L L' hb).2 hu hLL
+      rw [TrEq.tr_open2n2_probeShift L hL]
+      exact this
+    · simp only [O2.getHashCodePart, hu, if_true] at hsame
+      exact absurd hsame hne
+
+/-- **C12 (c) for the translated functions: along any chain of growths the element lands where a full rehash puts it.**
+`TrEq.trPlace` is `pvAddNogrow` for one element (probe loop over the translated `GetStartBucketIndex` / `GetNextBucketIndex`, short
+hash and hash-probe byte by the translated `pvCalcShortHash` / `pvSetHashProbe` / `AddCrt` / `pvGetHashState`), `TrEq.trCodeOf` the
+translated `GetHashCodePart` on those bytes; `trChainPart` re-inserts with that code at every step, `trChainFull` with the true hash. -/
+theorem C12_chain_translated (k : Kind) (h : Nat) (hh : h < 2 ^ 64) (L0 : Nat) (hL0 : L0 ≤ 57) (f0 : Nat → Bool)
+    (steps : List (Nat × (Nat → Bool))) (hch : GrowthChain 57 L0 steps) :
+    sameAsOpt k (TrEq.trChainPart k h (TrEq.trPlace k L0 f0 h) steps) (TrEq.trChainFull k h (TrEq.trPlace k L0 f0 h) steps) := by
+  rw [TrEq.trPlace_eq k L0 f0 h (by omega),
+    TrEq.trChainPart_eq k h steps L0 _ (fun st hst => TrEq.place_wf k L0 f0 h st hst) hL0 hch,
+    TrEq.trChainFull_eq k h steps L0 _ hch]
+  exact C12_chain k h hh L0 hL0 f0 steps hch
+
+/-- **C12 (d) for the translated functions: the element is still found.** Wherever the translated chain leaves the element, its
+start bucket is the one the translated `GetStartBucketIndex` computes from the true hash (so `pvFind` starts there), its bucket is
+the one the translated probe sequence of `h` reaches after `probe` steps, and the stored short hash / state is the translated
+short hash of `h`. -/
+theorem C12_still_found_translated (k : Kind) (h : Nat) (hh : h < 2 ^ 64) (L0 : Nat) (hL0 : L0 ≤ 57) (f0 : Nat → Bool)
+    (steps : List (Nat × (Nat → Bool))) (hch : GrowthChain 57 L0 steps) (st : Placed)
+    (hres : TrEq.trChainPart k h (TrEq.trPlace k L0 f0 h) steps = some st) :
+    st.start = Tr.base_GetStartBucketIndex h (2 ^ st.L) ∧ st.short = TrEq.trShort k h ∧
+    st.idx = TrEq.trSeq (TrEq.trNext k) st.L h st.probe := by
+  rw [TrEq.trPlace_eq k L0 f0 h (by omega),
+    TrEq.trChainPart_eq k h steps L0 _ (fun st hst => TrEq.place_wf k L0 f0 h st hst) hL0 hch] at hres
+  obtain ⟨hp, hL⟩ := TrEq.chainPart_bounds k h steps L0 _ (fun st hst => TrEq.place_probe_lt k L0 f0 h st hst) hL0 hch st hres
+  obtain ⟨a, b, c, _⟩ := C12_still_found k h hh L0 hL0 f0 steps hch st hres st.probe (Nat.le_refl _)
+  refine ⟨?_, ?_, ?_⟩
+  · rw [TrEq.tr_start]; exact a
+  · rw [TrEq.trShort_eq]; exact b
+  · rw [TrEq.trSeq_eq _ st.L h st.probe (by omega) (by omega), TrEq.trNext_quad]; exact c
+
+/-- **C12 (e) for the translated byte compaction of `BucketLimP4::Remove` and the translated `pvGetCount` / `IsFull`**: over every
+legal add/remove history of a bucket, the translated `pvGetCount` and `IsFull` applied to the model's byte array decode the number of elements
+/ fullness, and the byte array after a `Remove` of the model is the one the translated `else` block computes. -/
+theorem C12_limp4_meta_translated (hc maxCount minMpi : Nat) (h4 : 4 ≤ hc) (hm : maxCount ≤ 4) (hpos : 0 < maxCount) (ops : List Op)
+    (hl : legalHistP4 maxCount Abs.init ops) :
+    let b := ops.foldl P4.Bucket.step (P4.Bucket.new hc maxCount minMpi)
+    Tr.limp4_pvGetCount b.sh = (ops.foldl Abs.stepP4 Abs.init).n ∧
+    Tr.limp4_IsFull b.sh maxCount = decide ((ops.foldl Abs.stepP4 Abs.init).n = maxCount) ∧
+    (∀ index, 1 < b.count → index < hc → (b.remove index).sh = Tr.limp4_Remove_compact b.sh true hc b.count index) := by
+  intro b
+  obtain ⟨h1, h2, _⟩ := C12_limp4_meta_inv hc maxCount minMpi h4 hm ops hl
+  have hmc : ∀ (ops : List Op) (b : P4.Bucket), (ops.foldl P4.Bucket.step b).maxCount = b.maxCount ∧ (ops.foldl P4.Bucket.step b).hc = b.hc := by
+    intro ops
+    induction ops with
+    | nil => intro b; exact ⟨rfl, rfl⟩
+    | cons op rest ih =>
+      intro b; simp only [List.foldl_cons]
+      obtain ⟨i1, i2⟩ := ih (b.step op)
+      rw [i1, i2, P4.step_maxCount]
+      refine ⟨rfl, ?_⟩
+      cases op <;> simp only [P4.Bucket.step, P4.Bucket.addCrt, P4.Bucket.remove, P4.Bucket.empty] <;> (repeat' split) <;> rfl
+  have hbm : b.maxCount = maxCount := (hmc ops _).1
+  have hbh : b.hc = hc := (hmc ops _).2
+  refine ⟨?_, ?_, ?_⟩
+  · rw [TrEq.tr_limp4_getCount]; exact h1
+  · have := TrEq.tr_limp4_isFull b (by omega)
+    rw [hbm] at this
+    rw [this]; exact h2 hpos
+  · intro index hcnt hidx
+    have hcl : b.count ≤ 4 := by
+      show P4.countOf b.sh ≤ 4
+      unfold P4.countOf; repeat' split
+      all_goals omega
+    rw [TrEq.tr_limp4_removeBytes b.sh hc b.count index (by omega) (by omega) hidx]
+    unfold P4.Bucket.remove
+    rw [if_neg (by omega), hbh]
+
 /-! Non-vacuity: concrete states meeting the hypotheses. -/
 
 -- a byte that is consumed: L = 10 → L' = 11 (same group), displacement 0
@@ -314,5 +565,12 @@ example : legalHistP4 4 Abs.init [.add 5 4 0, .add (2 ^ 63) 4 1, .rem 0, .add 77
   simp [legalHistP4, Op.legalP4, Abs.stepP4, Abs.init]
 example : legalHistO2 3 Abs.init [.add 5 4 0, .add (2 ^ 63) 4 1, .rem 2, .add 77 4 2] := by
   simp [legalHistO2, Op.legalO2, Abs.stepO2, Abs.init]
+-- the translated code run on concrete values: L = 10 → L' = 11, displacement 0, element at position 0 of a 4-byte LimP4 bucket
+example : Tr.limp4_GetHashCodePart
+    (Tr.upd (Tr.limp4_pvSetHashProbe (fun _ => 255) true 4 0 0x123456789ABCDEF0 10 0) 0 (Tr.limp4_pvCalcShortHash 0x123456789ABCDEF0))
+    true 4 0 0 (TrEq.trSeq .limp4 10 0x123456789ABCDEF0 0) 10 11 = 0x120000000000DEF0 := by decide
+example : (TrEq.trPlace .limp4 4 (fun i => i == 0) 0x123456789ABCDE10).map (·.probe) = some 1 := by decide
+example : TrEq.trCodeOf .open2 ⟨12, 0x210, 5, TrEq.trSeq .open2n2 12 0xFEDCBA9876543210 5, Tr.open2n2_pvCalcShortHash 0xFEDCBA9876543210,
+    TrEq.trEnc .open2 0xFEDCBA9876543210 12 5⟩ 14 0 % 2 ^ 14 = 0xFEDCBA9876543210 % 2 ^ 14 := by decide
 
 end Momo.HashMeta
